@@ -33,7 +33,8 @@ def gen_stats(rng, n, kind):
                 v = (k + rng.uniform(0.1, 0.9)) / m     # stays away from integer products
             ops.append("U:" + hexf(v))
             since += 1
-        cases.append("%s %s %d %s" % (kind, hexf(prec), W, " ".join(ops)))
+        # a quarter of the objects are configured through the one-argument constructor + setWindowSize(W)
+        cases.append("%s%s %s %d %s" % (kind, "2" if rng.random() < 0.25 else "", hexf(prec), W, " ".join(ops)))
     return cases
 
 
@@ -82,7 +83,8 @@ def trunc_choices(v, m):
 def oracle(case, out):
     t = case.split()
     fails = []
-    if t[0] in ("avg", "var"):
+    if t[0] in ("avg", "var", "avg2", "var2"):
+        t[0] = t[0][:3]
         prec = float.fromhex(t[1])
         W = int(t[2])
         m = int(1 / prec)
